@@ -178,3 +178,31 @@ func TestReplay(t *testing.T) {
 		fmt.Println(string(ob))
 	}
 }
+
+// TestFreeRun runs every parameter tuple of a scenario VRUNS times with pass-through gates
+// and real concurrency. Built with -race it is the free-running data-race guard (DESIGN §2.7):
+// the cooperative scheduler's hand-offs are happens-before edges that blind the detector.
+func TestFreeRun(t *testing.T) {
+	name := os.Getenv("VSCEN")
+	if name == "" {
+		t.Skip("VSCEN not set")
+	}
+	sc := Registry[name]
+	if sc == nil {
+		t.Fatalf("unknown scenario %q", name)
+	}
+	runs, _ := strconv.Atoi(env("VRUNS", "3"))
+	n := 0
+	for _, p := range sc.Params(env("VTIER", "quick")) {
+		for i := 0; i < runs; i++ {
+			cfg := sc.Cfg
+			cfg.FreeRun = true
+			x := vsched.RunOnce(t, cfg, nil, nil, func(s *vsched.Sched) { sc.Body(s, p) })
+			n++
+			if x.Panic != "" {
+				t.Logf("free run %s/%s: PANIC %s", name, p.Name, firstLines(x.Panic, 6))
+			}
+		}
+	}
+	t.Logf("free-running executions: %d", n)
+}
